@@ -26,7 +26,7 @@ coils:
 """
 
 _HERE = os.path.dirname(os.path.abspath(__file__))
-_MACHINE = tempfile.mkdtemp(prefix="c08_f1_", dir=_HERE)
+_MACHINE = tempfile.mkdtemp(prefix="c08_f1_")
 os.makedirs(os.path.join(_MACHINE, "config"))
 with open(os.path.join(_MACHINE, "config", "config.yaml"), "w") as f:
     f.write(CONFIG)
